@@ -35,8 +35,12 @@ BUDGET = {"quick": 50.0, "thorough": 600.0}
 
 def as_given(token):
     """compact tokens are accepted as str and as bytes: a third of them (chosen by content, so that a replay takes the same form) go in as bytes"""
-    if isinstance(token, str) and zlib.crc32(token.encode("utf-8", "surrogatepass")) % 3 == 0:
-        return token.encode("utf-8", "surrogatepass")
+    if isinstance(token, str):
+        c = zlib.crc32(token.encode("utf-8", "surrogatepass")) % 9
+        if c in (0, 3, 6):
+            return token.encode("utf-8", "surrogatepass")
+        if c == 1:
+            return bytearray(token.encode("utf-8", "surrogatepass"))   # tolerated through bytes(x)
     return token
 
 
